@@ -54,6 +54,7 @@ pub fn stalled(out: &Outcome) -> bool {
     }
     let mut ids: Vec<i32> = out.tree_probe.iter().map(|(_, i)| *i).collect();
     ids.extend(out.tree_probe2.iter().map(|(_, i)| *i));
+    ids.extend(out.sem_probe.iter().map(|(_, i)| *i));
     ids.extend(out.hover_probe);
     ids.extend(out.fresh_probe);
     ids.iter().any(|i| !out.responses.contains_key(i))
@@ -157,6 +158,53 @@ pub fn content_oracle(prop: &str, spec: &RunSpec, out: &Outcome) -> Vec<Violatio
                     other => vs.push(v(format!("{prop}:probe-failed"), format!("doc {d}: {other:?}"))),
                 }
             }
+        }
+    }
+    // semantic probe: where the tree probe shows exactly the expected text, what the index knows
+    // about that text (hover on the marker local, line 0) must name the same marker. A stale
+    // index under a fresh tree (text stored, analysis skipped) is invisible to the tree probe.
+    for (d, id) in &out.sem_probe {
+        let ds = &spec.docs[*d];
+        if !ds.in_workspace {
+            continue;
+        }
+        let expected = match (&out.editor_at_probe[*d], &out.disk_at_probe[*d]) {
+            (Some(t), _) => only_marker(t),
+            (None, Some(t)) => only_marker(t),
+            _ => None,
+        };
+        let Some(want) = expected else { continue };
+        // only judged when the tree probe agrees on the text (otherwise the classes above report)
+        let tree_ok = out
+            .tree_probe
+            .iter()
+            .find(|(dd, _)| dd == d)
+            .map(|(_, tid)| matches!(probe_of(out, *tid), Probe::Present(ms) if ms == vec![want]))
+            .unwrap_or(false);
+        if !tree_ok {
+            continue;
+        }
+        let hover_text = out
+            .responses
+            .get(id)
+            .and_then(|rs| rs.first())
+            .map(|(_, r)| match (&r.result, &r.error) {
+                (Some(v), _) => v.to_string(),
+                (_, Some(e)) => format!("error {}: {}", e.code, e.message),
+                _ => "null".to_string(),
+            })
+            .unwrap_or_else(|| "unanswered".into());
+        let got = markers_in(&hover_text);
+        if got != vec![want] {
+            let state = if out.editor_at_probe[*d].is_some() { "open" } else { "closed" };
+            vs.push(v(
+                format!("{prop}:{state}-doc-semantic-info-stale"),
+                format!(
+                    "doc {d} ({}) holds the text with marker {want:?} but hover on its marker local answers {}",
+                    ds.rel,
+                    hover_text.chars().take(160).collect::<String>()
+                ),
+            ));
         }
     }
     // second pass: closed documents on disk were rewritten externally + watcher event: a server
